@@ -20,3 +20,8 @@ pub fn pipe_ts(sources: Vec<String>) -> Result<CompileResult, CompilerError> {
     }
     c.compile_to_string()
 }
+
+/// Both renderings of an error or warning (C08: rendering is total)
+pub fn render(e: &CompilerError, src: &str) -> (String, String) {
+    (e.to_string(), e.contextualize(src))
+}
